@@ -6,7 +6,9 @@ import (
 	"fmt"
 	"hash/fnv"
 	"io"
+	"runtime"
 	"strings"
+	"time"
 
 	"github.com/256dpi/gomqtt/packet"
 
@@ -799,6 +801,60 @@ func readGarbage(r *gen.Rng, n int) {
 			s.op("bytewise", bytewise(data), N, lim, fin, false)
 		} else {
 			s.op("rand4097", randChunks(r, data, 4097), N, lim, fin, false)
+		}
+	}
+}
+
+// gated reader: Read blocks until released, then hands out what it was given
+type gatedReader struct {
+	gate chan struct{}
+	data []byte
+	off  int
+}
+
+func (g *gatedReader) Read(p []byte) (int, error) {
+	<-g.gate
+	if g.off >= len(g.data) {
+		return 0, io.EOF
+	}
+	n := copy(p, g.data[g.off:])
+	g.off += n
+	return n, nil
+}
+
+// the read limit in force when the packet arrives decides, also when it was set while Read was already waiting
+// (a connection's limit is set by another goroutine than the one that receives)
+func limitWhileWaiting(r *gen.Rng, n int) {
+	for i := 0; i < n; i++ {
+		p := &packet.Publish{Message: packet.Message{Topic: "t", Payload: make([]byte, 100+r.Intn(400))}}
+		buf := make([]byte, p.Len())
+		if _, err := p.Encode(buf); err != nil {
+			continue
+		}
+		g := &gatedReader{gate: make(chan struct{}), data: buf}
+		d := packet.NewDecoder(g)
+		d.SetReadLimit(0)
+		type res struct {
+			pkt packet.Generic
+			err error
+		}
+		done := make(chan res, 1)
+		go func() {
+			pkt, err := d.Read()
+			done <- res{pkt, err}
+		}()
+		// let Read reach the blocked reader, then lower the limit below the packet's length, then deliver the bytes
+		for j := 0; j < 50; j++ {
+			runtime.Gosched()
+		}
+		time.Sleep(2 * time.Millisecond)
+		d.SetReadLimit(64)
+		close(g.gate)
+		x := <-done
+		w.Count("read/limit-while-waiting")
+		if x.err != packet.ErrReadLimitExceeded {
+			w.Monitor(prop, "limit-wrong", fmt.Sprintf("SetReadLimit(64) returned while Read was waiting for data; the %d-byte packet that arrived afterwards was not refused (err=%v)", len(buf), x.err),
+				[]string{"NewDecoder(gated reader); go Read(); SetReadLimit(64); deliver " + fmt.Sprint(len(buf)) + " bytes"})
 		}
 	}
 }
